@@ -301,7 +301,7 @@ namespace
       name_(std::string("decompressed version of " + name))
   {
     if (0 == f_)
-      throw new NonFileOsError(errno);
+      throw NonFileOsError(errno);
     write_decompressed_data(name, f_);
   }
 
